@@ -5,13 +5,17 @@
   `BytesSource`); `runS pol` is the semantics over ANY source obeying the `Source` contract
   (`Conforming pol`: each request grants at least `min(len, available)` and at most what is
   available), in which `slice()` is cut to what was granted and `bytes`/`advance` beyond the grant
-  panic.  The theorem is proved once, by induction over the program, for every capture-free
-  routine (`NoCap`); the routines of the library model are shown capture-free in
-  Bcder/Lemmas/NoCap.lean and instantiated below.
+  panic.  The theorem is proved once, by induction over the program, for EVERY routine - including
+  those that capture (`Constructed::capture*`, constructed OCTET STRING decoding): the stream layer
+  models open `CaptureSource`s (the base source is not advanced while a capture is open, every
+  request reaches it with the captured offset added, `into_bytes` advances it).  It is instantiated
+  below.
 -/
 import Bcder.Lemmas.Stream
 import Bcder.Lemmas.NoCap
 import Bcder.Model.Script
+import Bcder.Model.Octet
+import Bcder.Props.C11
 namespace Bcder.Props.C07
 open Bcder
 
@@ -23,29 +27,54 @@ def G.fresh (data : Bytes) (limit : Option Nat) : G :=
   { data := data, limit := limit, frames := [], seen := 0 }
 
 theorem rel_fresh (data : Bytes) (limit : Option Nat) : Rel (S.fresh data limit) (G.fresh data limit) :=
-  ⟨rfl, rfl, rfl, Nat.le_refl 0, Nat.zero_le _⟩
+  ⟨rfl, rfl, rfl, Nat.le_refl 0, Nat.le_refl 0, Nat.zero_le _⟩
 
-/-- C07 (main) — for every capture-free routine `p`, every input, every limit and every conforming
-    grant policy: if the run over a slice yields a value, the run over the streaming source yields
+/-- C07 (main) — for EVERY routine `p` (capturing or not), every input, every limit and every
+    conforming grant policy: if the run over a slice yields a value, the run over the streaming source yields
     the same value, has consumed the same octets and has stayed within the source contract (no
     `CONTRACT` panic is possible, since the result is `ok`); if the run over a slice rejects the
     input, so does the run over the streaming source, with the same error class. -/
-theorem source_independence (pol : Policy) (hp : Conforming pol) (p : Prog α) (hn : NoCap p)
+theorem source_independence (pol : Policy) (hp : Conforming pol) (p : Prog α)
     (data : Bytes) (limit : Option Nat) :
     (∀ a g', runG p (G.fresh data limit) = .ok (a, g') →
-      ∃ s', runS pol p (S.fresh data limit) = .ok (a, s') ∧ s'.data = g'.data ∧ s'.limit = g'.limit) ∧
+      ∃ s', runS pol p (S.fresh data limit) = .ok (a, s') ∧ s'.data.drop s'.off = g'.data ∧
+        s'.limit = g'.limit ∧ s'.frames = g'.frames) ∧
     (∀ e, runG p (G.fresh data limit) = .error e → e.isPanic = false →
       runS pol p (S.fresh data limit) = .error e) := by
-  have h := run_sim pol hp p hn (S.fresh data limit) (G.fresh data limit) (rel_fresh data limit)
+  have h := run_sim pol hp p (S.fresh data limit) (G.fresh data limit) (rel_fresh data limit)
   constructor
   · intro a g' hg
     rcases h.1 a g' hg with ⟨hne, _⟩ | ⟨s', hs', R', _⟩
     · exact absurd rfl hne
-    · exact ⟨s', hs', R'.data.symm, R'.limit.symm⟩
+    · exact ⟨s', hs', R'.data.symm, R'.limit.symm, R'.frames.symm⟩
   · intro e hg hp'
     rcases h.2 e hg hp' with ⟨hne, _⟩ | he
     · exact absurd rfl hne
     · exact he
+
+/-- … and when no capture is left open at the end (every library routine closes what it opens), the
+    base source has been advanced exactly as far as the slice -/
+theorem source_independence_closed (pol : Policy) (hp : Conforming pol) (p : Prog α)
+    (data : Bytes) (limit : Option Nat)
+    (hclosed : ∀ a g', runG p (G.fresh data limit) = .ok (a, g') → g'.frames = []) :
+    (∀ a g', runG p (G.fresh data limit) = .ok (a, g') →
+      ∃ s', runS pol p (S.fresh data limit) = .ok (a, s') ∧ s'.data = g'.data ∧ s'.limit = g'.limit) ∧
+    (∀ e, runG p (G.fresh data limit) = .error e → e.isPanic = false →
+      runS pol p (S.fresh data limit) = .error e) := by
+  obtain ⟨h1, h2⟩ := source_independence pol hp p data limit
+  refine ⟨?_, h2⟩
+  intro a g' hg
+  obtain ⟨s', hs', hd, hl, hf⟩ := h1 a g' hg
+  have : s'.off = 0 := by simp [S.off, hf, hclosed a g' hg]
+  rw [this] at hd
+  exact ⟨s', hs', by simpa using hd, hl⟩
+
+/-- a capture-free routine leaves the capture frames as they were -/
+theorem nocap_frames {p : Prog α} (hn : NoCap p) : ∀ (g : G) (a : α) (g' : G), runG p g = .ok (a, g') →
+    g.frames = [] → g'.frames = [] := by
+  intro g a g' h hf
+  obtain ⟨k, _, _, hfr⟩ := run_consumed p (Bcder.Props.C11.uses_of_nocap hn) g a g' h
+  rw [hfr, hf]
 
 /-- the stingiest conforming source: grants exactly `min(len, available)` -/
 def stingy : Policy := fun _ len avail => min len avail
@@ -102,11 +131,12 @@ theorem generic_read_independent (pol : Policy) (hp : Conforming pol) (m : Mode)
     (∀ e, runG p (G.fresh data none) = .error e → e.isPanic = false →
       runS pol p (S.fresh data none) = .error e) := by
   intro p
-  apply source_independence pol hp p
-  apply nocap_decodeTop
-  intro c
-  have := (nocap_generic fuel).2 c {}
-  nocap
+  have hnc : NoCap p := by
+    apply nocap_decodeTop
+    intro c
+    have := (nocap_generic fuel).2 c {}
+    nocap
+  exact source_independence_closed pol hp p data none (fun a g' h => nocap_frames hnc _ a g' h rfl)
 
 /-- C07 instantiated: skipping everything -/
 theorem skip_all_independent (pol : Policy) (hp : Conforming pol) (m : Mode) (data : Bytes) (fuel : Nat) :
@@ -116,11 +146,12 @@ theorem skip_all_independent (pol : Policy) (hp : Conforming pol) (m : Mode) (da
     (∀ e, runG p (G.fresh data none) = .error e → e.isPanic = false →
       runS pol p (S.fresh data none) = .error e) := by
   intro p
-  apply source_independence pol hp p
-  apply nocap_decodeTop
-  intro c
-  have := nocap_skipAll fuel c
-  nocap
+  have hnc : NoCap p := by
+    apply nocap_decodeTop
+    intro c
+    have := nocap_skipAll fuel c
+    nocap
+  exact source_independence_closed pol hp p data none (fun a g' h => nocap_frames hnc _ a g' h rfl)
 
 /-- C07 instantiated: every fixed-width INTEGER reader behind `take_primitive_if(INTEGER, …)` -/
 theorem take_int_independent (pol : Policy) (hp : Conforming pol) (m : Mode) (ty : IntTy) (data : Bytes) :
@@ -131,16 +162,47 @@ theorem take_int_independent (pol : Policy) (hp : Conforming pol) (m : Mode) (ty
     (∀ e, runG p (G.fresh data none) = .error e → e.isPanic = false →
       runS pol p (S.fresh data none) = .error e) := by
   intro p
-  apply source_independence pol hp p
-  apply nocap_decodeTop
-  intro c
-  apply nocap_mandatory
-  apply nocap_processNextValue
-  intro t k
-  apply nocap_asPrimitive
-  intro md
-  have := nocap_toInt ty
-  nocap
+  have hnc : NoCap p := by
+    apply nocap_decodeTop
+    intro c
+    apply nocap_mandatory
+    apply nocap_processNextValue
+    intro t k
+    apply nocap_asPrimitive
+    intro md
+    have := nocap_toInt ty
+    nocap
+  exact source_independence_closed pol hp p data none (fun a g' h => nocap_frames hnc _ a g' h rfl)
+
+/-- C07 instantiated for routines that CAPTURE: `capture_one` (any `Constructed`, any input) -/
+theorem capture_one_independent (pol : Policy) (hp : Conforming pol) (m : Mode) (data : Bytes) (fuel : Nat) :
+    let p : Prog Bytes := decodeTop m (fun c => captureOne c fuel)
+    (∀ a g', runG p (G.fresh data none) = .ok (a, g') →
+      ∃ s', runS pol p (S.fresh data none) = .ok (a, s') ∧ s'.data.drop s'.off = g'.data ∧
+        s'.limit = g'.limit ∧ s'.frames = g'.frames) ∧
+    (∀ e, runG p (G.fresh data none) = .error e → e.isPanic = false →
+      runS pol p (S.fresh data none) = .error e) :=
+  source_independence pol hp _ data none
+
+/-- C07 instantiated: decoding an OCTET STRING, primitive or constructed (the constructed forms are
+    read inside `Constructed::capture`) -/
+theorem octet_string_independent (pol : Policy) (hp : Conforming pol) (m : Mode) (data : Bytes) (fuel : Nat) :
+    let p : Prog OS := decodeTop m (fun c => takeValueIf c Tag.OCTET_STRING (OS.fromContent fuel))
+    (∀ a g', runG p (G.fresh data none) = .ok (a, g') →
+      ∃ s', runS pol p (S.fresh data none) = .ok (a, s') ∧ s'.data.drop s'.off = g'.data ∧
+        s'.limit = g'.limit ∧ s'.frames = g'.frames) ∧
+    (∀ e, runG p (G.fresh data none) = .error e → e.isPanic = false →
+      runS pol p (S.fresh data none) = .error e) :=
+  source_independence pol hp _ data none
+
+/-- non-vacuity: a constructed OCTET STRING of indefinite length read over the stingy source and
+    over a source growing one octet at a time: same value, all input consumed, no capture left open -/
+example : ∃ s', runS stingy (decodeTop .ber (fun c => takeValueIf c Tag.OCTET_STRING (OS.fromContent 5)))
+      (S.fresh [0x24, 0x80, 0x04, 0x01, 0x61, 0x04, 0x01, 0x62, 0x00, 0x00] none) =
+        .ok (.cons [0x04, 0x01, 0x61, 0x04, 0x01, 0x62], s') ∧ s'.data = [] ∧ s'.frames = [] := ⟨_, rfl, rfl, rfl⟩
+example : ∃ s', runS (chunked 1) (decodeTop .ber (fun c => takeValueIf c Tag.OCTET_STRING (OS.fromContent 5)))
+      (S.fresh [0x24, 0x80, 0x04, 0x01, 0x61, 0x04, 0x01, 0x62, 0x00, 0x00] none) =
+        .ok (.cons [0x04, 0x01, 0x61, 0x04, 0x01, 0x62], s') ∧ s'.data = [] ∧ s'.frames = [] := ⟨_, rfl, rfl, rfl⟩
 
 /-- non-vacuity: a concrete accepted run over the stingy source -/
 example : ∃ s', runS stingy (decodeTop .der (fun c =>
